@@ -136,7 +136,8 @@ def install_parsing_state_contracts():
     from pylatexenc.latexnodes import ParsingState
 
     def snap_fields(self):
-        return dict(self.get_fields())
+        import copy
+        return {k: (copy.deepcopy(v) if isinstance(v, (list, dict, set)) else v) for k, v in self.get_fields().items()}
 
     def sub_context_post(self, result, old):
         now = self.get_fields()
